@@ -102,6 +102,13 @@ def main(prop):
                                     'seed': seed(), 'tier': tier(), 'trace': excerpt(f, j['run'])}, txt))
     if tot.get('runs') != gen['runs']:
         die_tool('run count mismatch: harness %s, TLC %s' % (gen['runs'], tot.get('runs')))
+    lcov = {}
+    if prop == 'C20':
+        import lifecycle_stage
+        lv, lcov, ls, lt, ln = lifecycle_stage.run(prop, wd, thorough)
+        violations += lv
+        states += ls; trans += lt
+        tot['runs'] = tot.get('runs', 0) + ln
     first = json.loads(open(files[0]).readline())
     cov = {
         'states': states, 'transitions': trans,
@@ -113,6 +120,7 @@ def main(prop):
         'samples': [excerpt(files[0], first['run'], 40)], 'exhaustive': False,
     }
     cov.update({k: v for k, v in tot.items() if k not in ('runs', 'events', 'fails')})
+    cov.update(lcov)
     finish(prop, 'model_checking', cov, violations, known, t0,
            assumptions=['the scheduler serialises instrumented operations; code between them runs freely',
                         'reference scores in the trace header come from a fresh MultiPattern/Matcher (their correctness is C01-C05, C15)',
